@@ -564,6 +564,7 @@ func smbC04Case(c *h.Ctx, mk func() command_interface.CommandInterface, k *smbCa
 	smbReusedReceiver(c, mk, k, site, b1)
 	if k.WF {
 		smbStaleLengthRoute(c, mk, k, site, b1)
+		smbZeroValueRoute(c, mk, k, site, b1)
 	}
 	// a structure constructed NOW is the default structure, whatever was encoded or decoded before
 	{
@@ -598,6 +599,39 @@ func smbC04Case(c *h.Ctx, mk func() command_interface.CommandInterface, k *smbCa
 		c.Fail(site, "reencode:fresh-buffers", fmt.Sprintf("Marshal of the decoded fields: %s, first encoding: %s", smbHex(b3), smbHex(b1)), k.sample())
 	}
 	return nil
+}
+
+// smbZeroValueRoute: a structure that did not come from its constructor -- `new(T)` / `&T{}` followed by Init() and the same
+// field assignments -- is the same command: its encoding is the constructor-built one (ref), and it decodes that encoding to
+// the same fields. (What the constructor adds beyond Init(), e.g. the command code for the header, is not part of the body.)
+func smbZeroValueRoute(c *h.Ctx, mk func() command_interface.CommandInterface, k *smbCase, site string, ref []byte) {
+	t := reflect.TypeOf(mk()).Elem()
+	mk0 := func() command_interface.CommandInterface {
+		return reflect.New(t).Interface().(command_interface.CommandInterface)
+	}
+	x0, err := smbBuild(mk0, k)
+	if err != nil {
+		return
+	}
+	b0, e0, p0 := smbMarshal(x0)
+	c.Exec(1)
+	switch {
+	case p0 != "" || e0 != nil:
+		c.Drift(site, "zero-value-route:not-encodable", fmt.Sprintf("new(T) + Init() + the same field values: Marshal fails (%v %s)", e0, p0), k.sample())
+		return
+	case !bytes.Equal(b0, ref):
+		c.Fail(site, "zero-value-route:encoding", fmt.Sprintf("new(T) + Init() + the same field values encodes to %s, the constructor-built structure to %s", smbHex(b0), smbHex(ref)), k.sample())
+		return
+	}
+	y0 := mk0()
+	y0.Init()
+	var ue error
+	if pu := h.Guard(func() { _, ue = y0.Unmarshal(append([]byte{}, ref...)) }); pu != "" || ue != nil {
+		c.Fail(site, "zero-value-route:decoding", fmt.Sprintf("new(T) + Init() refuses the encoding the constructor-built structure decodes: %v %s", ue, pu), k.sample())
+		return
+	}
+	c.Exec(1)
+	smbCompareFields(c, y0, k, site, "zero-value-route:roundtrip", false)
 }
 
 // smbStaleLengthRoute: SMB_STRING.Length is a derived component (the encoders take the length from Buffer): a caller that
